@@ -33,7 +33,8 @@
 
 #define to_bool(a) (a == bloc_true ? true : false)
 
-static struct { const char * msg; int no; } bloc_error = { "", 0 };
+/* the last error is recorded per thread: clones run on several threads */
+static thread_local struct { const char * msg; int no; } bloc_error = { "", 0 };
 
 const char*
 bloc_strerror() {
